@@ -967,10 +967,10 @@ pub fn compare(e: &Exp, post: &Snap) -> Vec<Mismatch> {
         for xx in 0..x.columns as usize {
             let exp = &x.grid[y][xx];
             let got = &post.grid[y][xx];
-            if exp == got {
+            if exp.same_modulo_nfc(got) {
                 continue;
             }
-            if e.all_cells_also.iter().any(|c| c == got) {
+            if e.all_cells_also.iter().any(|c| c.same_modulo_nfc(got)) {
                 continue;
             }
             let mut ok = false;
@@ -979,7 +979,7 @@ pub fn compare(e: &Exp, post: &Snap) -> Vec<Mismatch> {
                     match alt {
                         CellAlt::Any => ok = true,
                         CellAlt::Also(v) => {
-                            if v.iter().any(|c| c == got) {
+                            if v.iter().any(|c| c.same_modulo_nfc(got)) {
                                 ok = true
                             }
                         }
